@@ -71,6 +71,15 @@ func evalLValueAST(env *EvalEnv, e interface{}) (PtrV, error) {
 					return PtrV{Region: r, RootT: sl.Elem(), Base: SlBase(tv.T), Path: []Step{{Index: bvBin("bvadd", SlOff(tv.T), idx)}}, Typ: types.NewPointer(sl.Elem())}, nil
 				}
 			}
+			if pv, ok := bv.(PtrV); ok {
+				// p[i] with p a pointer to an array
+				if arr, ok := pv.Typ.Underlying().(*types.Pointer).Elem().Underlying().(*types.Array); ok {
+					np := pv
+					np.Path = append(append([]Step{}, pv.Path...), Step{Index: idx})
+					np.Typ = types.NewPointer(arr.Elem())
+					return np, nil
+				}
+			}
 		}
 		bp, err := evalLValueAST(env, e.X)
 		if err != nil {
